@@ -46,6 +46,10 @@ def expected_model(c):
         return go
     if op in ("avopen", "avstale"):
         return " ".join(go.split(" ")[:3])          # averr=.. closed=.. next=..
+    if op == "trsplit":
+        return "split=BAD" if go == "split=ERR" else go
+    if op == "trpage":
+        return "pure=BAD" if go.startswith("ERR") else go.split(":")[0]
     if op in ("trlate", "trcut"):
         # the harness's own verdicts with the detail after BAD stripped
         return " ".join(x.split(":")[0] for x in go.split(" "))
@@ -66,6 +70,10 @@ CUT_WHAT = {
     "deliv": "a Transport call received the answer to ANOTHER call's request",
     "hang": "after a cut response a later request to the same broker never returned, ignoring its context deadline (2 s watchdog): "
             "the dead connection was still on the idle list and the hand-off `c.reqs <- connRequest` blocks forever",
+    "split": "one Transport call split into several exchanges delivered the answer of one exchange under the question of another (or lost / "
+             "invented an answer): the results handed to the merger are not aligned with the sub-requests (C06_transport_split_aligned)",
+    "pure": "a Fetch call read, from the records of ITS response, bytes of the response to another call's request (or its response became "
+            "unreadable) after other calls were served on the same Transport: cross-talk through the protocol package's page pool",
     "ids": "a correlation id was used twice on one transport connection (C06_pool_ids_increasing)",
     "fail": "a transport connection carried another request after one of its exchanges had failed (C06_pool_failed_conn_final)",
 }
@@ -97,7 +105,7 @@ def transport_cut_cases(ctx, ncases=None):
     correspondence(): evaluations, distinct_nontrivial, hist, rule, samples, failures, extra."""
     model = L.ocaml_build("c06")
     n = ncases if ncases is not None else ctx.scale(18, 300)
-    out, dt = run_harness(ctx, 0, 0, av=0, late=0, cut=n)
+    out, dt = run_harness(ctx, 0, 0, av=0, late=0, cut=n, split=0, page=0)
     cases = L.parse_cases(out)
     res = L.run_model(model, "\n".join(model_line(c) for c in cases) + "\n", timeout=600)
     failures = []
@@ -121,11 +129,13 @@ def setup():
     L.ocaml_build("c06")
 
 
-def run_harness(ctx, n, big, av=4, seed=None, late=None, cut=None):
+def run_harness(ctx, n, big, av=4, seed=None, late=None, cut=None, split=None, page=None):
     gobin = L.go_build("c06")
     rc, out, err, dt = L.sh([gobin, "-seed", str(seed if seed is not None else ctx.seed), "-n", str(n),
                              "-big", str(big), "-av", str(av), "-late", str(late if late is not None else ctx.scale(24, 300)),
-                             "-cut", str(cut if cut is not None else ctx.scale(18, 300))], timeout=1500)
+                             "-cut", str(cut if cut is not None else ctx.scale(18, 300)),
+                             "-split", str(split if split is not None else ctx.scale(40, 600)),
+                             "-page", str(page if page is not None else ctx.scale(12, 200))], timeout=1500)
     if rc != 0:
         raise L.Fail("correspondence", "harness cmd/c06 crashed", (out[-1500:] + err[-2500:]))
     return out, dt
@@ -176,8 +186,10 @@ def correspondence(ctx):
                                      what="bytes left over from an abandoned ApiVersions exchange were delivered to the next call as its response",
                                      detail=c["line"][:400] + " -> " + c["go"][:200], input=inp))
                 continue
-        if c["op"] == "trcut":
-            pf, cf = judge_monitor_case(c, m, ("cut", "deliv", "hang", "ids", "fail"))
+        if c["op"] in ("trcut", "trsplit", "trpage"):
+            if c["op"] == "trpage" and c["go"].startswith("ERR"):
+                c = dict(c, go="pure=BAD:" + c["go"])
+            pf, cf = judge_monitor_case(c, m, dict(trcut=("cut", "deliv", "hang", "ids", "fail"), trsplit=("split",), trpage=("pure",))[c["op"]])
             if pf:
                 failures.append(pf)
             if cf:
@@ -243,7 +255,7 @@ def correspondence(ctx):
                      "deadline, ctx cancel / deadline) checked by linearisation search against the extracted model (projection: order of requests "
                      "at the broker, order of complete answer frames per connection, outcome class per call); muxbig / trbig = 2-16 goroutines x "
                      "3-10 payload-tagged calls, predicate only (every returned value carries the caller's tag, every failure is an error); "
-                     "trlate = one Transport call whose context deadline expires mid-exchange, the broker answers LATE (released by the next request on that connection / timed), 1-3 followers of the same connection group (fc, lo, of) within the idle timeout; the whole wire journal (conn, correlation id per request and answer frame) and the call results go through the monitors extracted from Model/TransportPool.v (mon_delivery, mon_ids, mon_fail);  trcut = the answer to one Transport call cut after k bytes (then closed / silent), 1-3 followers of the same connection group must each get their own answer on a fresh connection within their deadline (monitors mon_cut, mon_nohang, mon_delivery, mon_ids, mon_fail);  avopen / avstale = regression of the former ApiVersions defect (time-out inside the body must close; no left-over bytes delivered).  non-trivial = anything but a single undisturbed call",
+                     "trlate = one Transport call whose context deadline expires mid-exchange, the broker answers LATE (released by the next request on that connection / timed), 1-3 followers of the same connection group (fc, lo, of) within the idle timeout; the whole wire journal (conn, correlation id per request and answer frame) and the call results go through the monitors extracted from Model/TransportPool.v (mon_delivery, mon_ids, mon_fail);  trsplit = one Transport call that is SPLIT into several exchanges (listoffsets with several (partition, timestamp) questions over a 2-4 broker cluster, listgroups over all brokers; some broker connections pre-warmed, per-answer and handshake delays) judged by mon_split: every question gets exactly the answer the broker produced for it;  trpage = 4-6 Client.Fetch calls on one Transport, record batches filled with the asking call's letter, call 0 closes the (nil / empty / non-empty) key and the value of each record it is done with while the other calls are served between its records (single P): no call reads a foreign byte (mon_pure);  trcut = the answer to one Transport call cut after k bytes (then closed / silent), 1-3 followers of the same connection group must each get their own answer on a fresh connection within their deadline (monitors mon_cut, mon_nohang, mon_delivery, mon_ids, mon_fail);  avopen / avstale = regression of the former ApiVersions defect (time-out inside the body must close; no left-over bytes delivered).  non-trivial = anything but a single undisturbed call",
                 samples=[c["line"][:260] + " | " + c["go"][:100] for c in cases[:2] + cases[len(cases)//3:len(cases)//3+2]
                          + cases[2*len(cases)//3:2*len(cases)//3+2] + cases[-2:]],
                 extra=dict(per_op=per_op, tagged_calls_ok=ok_calls, tagged_calls_err=err_calls,
